@@ -68,7 +68,18 @@ def make_case(rng: random.Random, index: int) -> Dict[str, Any]:
     return {"hists": hists, "country": country, "language": language, "method": method, "to": to_s}
 
 
+def _all_valid(ctx: Any, case: Dict[str, Any]) -> bool:
+    from rpv.oracle.balance import is_valid
+
+    if all(is_valid(Model(h)) for h in case["hists"].values()):
+        return True
+    ctx.count("generated_invalid")
+    return False
+
+
 def _one(ctx: Any, case: Dict[str, Any], name: str) -> None:
+    if not _all_valid(ctx, case):
+        return
     ws = Workspace(ctx.scratch, name)
     try:
         hists = copy.deepcopy(case["hists"])
@@ -205,9 +216,11 @@ def make_cross_case(rng: random.Random, index: int) -> Dict[str, Any]:
 
 
 def _one_cross(ctx: Any, case: Dict[str, Any], name: str) -> None:
-    """Report-to-report consistency of one run: unrealized cost (open positions) + realized cost (Gain / Loss Detail) = cost of
+    """(invalid generated inputs are skipped) Report-to-report consistency of one run: unrealized cost (open positions) + realized cost (Gain / Loss Detail) = cost of
     the lots listed in the In-Flow table; balances of the open-positions sheets = positive final balances of the Account
     Balances table; unit cost = unrealized / balance; weights sum to 1."""
+    if not _all_valid(ctx, case):
+        return
     ws = Workspace(ctx.scratch, name)
     try:
         hists = copy.deepcopy(case["hists"])
